@@ -13,9 +13,9 @@ ID = "C15"
 LEVEL = "exploration"
 DESIGN_REF = "DESIGN.md 5 C15"
 RULE = (
-    "case = (quad map: structured n x m, the library's OneCore/FourCore/Oval/HalfDisk maps, an irregular map, star maps "
+    "case = (quad map: structured n x m, the library's OneCore/FourCore/Oval/HalfDisk maps, an irregular map, an L-shaped map (re-entrant boundary corner), star maps "
     "whose interior points have valence n (n = 3,5,6[,7]), 4 and 3; or hex assembly 2x2x2, 3x3x1..3 of boxes, the star "
-    "map extruded in two layers (a node of valence n+2)) x interior jitter level x frame; inside: "
+    "map extruded in two layers (a node of valence n+2), an L of boxes in two storeys (re-entrant boundary edge)) x interior jitter level x frame; inside: "
     "every subset (<=16) of interior points fixed by index and by position x iterations in {1,2,5,50,200}; reference: "
     "adjacency model derived from the index lists alone (boundary = edge/quad owned by one cell, neighbours = cell "
     "edges). non-trivial = a distinct (map, fixed set, iterations) smoothing run"
@@ -98,6 +98,41 @@ def star_quads(n):
     return np.array(pos, float), quads
 
 
+def _compress(pos, cells):
+    """drop points no cell uses and renumber"""
+    used = sorted({i for c in cells for i in c})
+    new = {old: k for k, old in enumerate(used)}
+    return np.array([pos[i] for i in used], float), [[new[i] for i in c] for c in cells]
+
+
+def ell_quads():
+    """3 x 3 cells with uneven spacing, the upper right cell left out: the re-entrant corner is a boundary point all of
+    whose incident cells but one have it in their interior-facing sides"""
+    xs, ys = [0.0, 1.0, 2.2, 3.0], [0.0, 0.8, 2.0, 3.0]
+    pos = [[x, y, 0.0] for y in ys for x in xs]
+    quads = []
+    for j in range(3):
+        for i in range(3):
+            if (i, j) != (2, 2):
+                a = j * 4 + i
+                quads.append([a, a + 1, a + 5, a + 4])
+    return _compress(pos, quads)
+
+
+def ell_hexes():
+    """the L-shaped map (2 x 2 cells minus one) in two storeys: a re-entrant edge with a middle vertex"""
+    xs, ys, zs = [0.0, 1.0, 2.1], [0.0, 0.9, 2.0], [0.0, 1.0, 1.8]
+    pos = [[x, y, z] for z in zs for y in ys for x in xs]
+    cells = []
+    for k in range(2):
+        for j in range(2):
+            for i in range(2):
+                if (i, j) != (1, 1):
+                    a = k * 9 + j * 3 + i
+                    cells.append([a, a + 1, a + 4, a + 3, a + 9, a + 10, a + 13, a + 12])
+    return _compress(pos, cells)
+
+
 def star_hexes(n):
     """the star map extruded in two layers: the centre point of the middle layer has valence n + 2"""
     p2, quads = star_quads(n)
@@ -156,7 +191,7 @@ def adjacency(cells, dim):
 def cases(tier, seed):
     out = []
     frames = [0, 4] if tier == "quick" else [0, 2, 4, 6]
-    maps = ["s2x2", "s3x3", "s4x2", "onecore", "fourcore", "halfdisk", "oval", "irregular", "v3", "v5", "v6", "w5", "h2x2x2", "h3x3x1", "h3x3x2", "h3x3x3"]
+    maps = ["s2x2", "s3x3", "s4x2", "onecore", "fourcore", "halfdisk", "oval", "irregular", "v3", "v5", "v6", "w5", "L2d", "L3d", "h2x2x2", "h3x3x1", "h3x3x2", "h3x3x3"]
     if tier == "thorough":
         maps += ["s4x4", "s3x2", "v7", "w3", "w7"]
     for mp in maps:
@@ -177,6 +212,12 @@ def build(case):
     elif mp == "irregular":
         pos, cells = irregular_quads()
         dim = 2
+    elif mp == "L2d":
+        pos, cells = ell_quads()
+        dim = 2
+    elif mp == "L3d":
+        pos, cells = ell_hexes()
+        dim = 3
     elif mp.startswith("v"):
         pos, cells = star_quads(int(mp[1]))
         dim = 2
